@@ -23,6 +23,8 @@ type Config struct {
 	MinCaptures      int  // at least this many capture files (if there are that many packets)
 	LongGaps         bool // allow gaps of seconds to minutes between packets (scenarios longer than the importer's 5 min idle timeout)
 	MinPackets       int  // keep adding conversations (beyond MaxConversations) until the scenario has this many packets
+	OverlapPercent   int  // share of scenarios whose capture files overlap in time (several sensors), see layoutSensors
+	SlowPercent      int  // share of scenarios in which about a quarter of the gaps between packets are 1-4 minutes (flows lasting longer than the importer's 5 min timeouts without ever idling that long); needs LongGaps
 
 	// AvoidSeqWrapDisorder steers away from TCP connections that combine sequence
 	// numbers wrapping around 2^32 with reordered or retransmitted segments (the
@@ -38,12 +40,12 @@ type Config struct {
 
 // DefaultConfig is the space of DESIGN.md §4.2 / C05.
 func DefaultConfig() Config {
-	return Config{MinConversations: 1, MaxConversations: 8, MaxFlights: 6, MaxFlightBytes: 30000, MaxDatagrams: 6, MaxCaptures: 5, LongGaps: true}
+	return Config{MinConversations: 1, MaxConversations: 8, MaxFlights: 6, MaxFlightBytes: 30000, MaxDatagrams: 10, MaxCaptures: 5, LongGaps: true, OverlapPercent: 38, SlowPercent: 30}
 }
 
 // LargeConfig yields scenarios of at least minPackets packets (real-size captures).
 func LargeConfig(minPackets int) Config {
-	return Config{MinConversations: 40, MaxConversations: 80, MaxFlights: 60, MaxFlightBytes: 60000, MaxDatagrams: 200, MinCaptures: 2, MaxCaptures: 3, LongGaps: false, MinPackets: minPackets}
+	return Config{MinConversations: 40, MaxConversations: 80, MaxFlights: 60, MaxFlightBytes: 60000, MaxDatagrams: 200, MinCaptures: 2, MaxCaptures: 3, LongGaps: false, MinPackets: minPackets, OverlapPercent: 30}
 }
 
 const (
@@ -55,6 +57,19 @@ const (
 var v4Pool = []net.IP{net.IPv4(10, 0, 0, 1).To4(), net.IPv4(10, 0, 0, 2).To4(), net.IPv4(192, 168, 1, 10).To4(), net.IPv4(172, 16, 5, 4).To4(), net.IPv4(8, 8, 8, 8).To4(), net.IPv4(255, 255, 255, 254).To4()}
 var v6Pool = []net.IP{net.ParseIP("fd00::1"), net.ParseIP("fd00::2"), net.ParseIP("2001:db8::10"), net.ParseIP("2001:db8:ffff::1"), net.ParseIP("fe80::1:2:3:4")}
 var serverPorts = []int{80, 443, 53, 8080, 22, 1, 65535}
+
+// percent is true with probability p/100 (in steps of 1/64). rapid's integer
+// generators favour small values, so the decision is assembled from fair bits.
+func percent(t *rapid.T, label string, p int) bool {
+	v := 0
+	for i := 0; i < 6; i++ {
+		v <<= 1
+		if rapid.Bool().Draw(t, label) {
+			v |= 1
+		}
+	}
+	return v*100 < p*64
+}
 
 // Gen returns the scenario generator.
 func Gen(cfg Config) *rapid.Generator[*Scenario] {
@@ -118,7 +133,11 @@ func gen(t *rapid.T, cfg Config) *Scenario {
 	}
 	s.Packets = interleave(t, s.Conversations, total)
 	stamp(t, s, cfg)
-	cut(t, s, cfg)
+	if len(s.Packets) >= 2 && percent(t, "capture layout", cfg.OverlapPercent) {
+		layoutSensors(t, s, cfg)
+	} else {
+		cut(t, s, cfg)
+	}
 	return s
 }
 
@@ -447,8 +466,12 @@ func genUDP(t *rapid.T, c *Conversation, cfg Config) {
 	u := &udpFlow{c: c}
 	pr := newPrng(rapid.Uint64().Draw(t, "payload seed"))
 	n := 1
-	if rapid.IntRange(0, 3).Draw(t, "single datagram") != 0 {
+	switch k := rapid.IntRange(0, 9).Draw(t, "datagrams class"); {
+	case k < 2:
+	case k < 6:
 		n = rapid.IntRange(1, cfg.MaxDatagrams).Draw(t, "datagrams")
+	default: // longer exchange
+		n = rapid.IntRange(min(5, cfg.MaxDatagrams), cfg.MaxDatagrams).Draw(t, "datagrams")
 	}
 	for i := 0; i < n; i++ {
 		dir := C2S
@@ -589,10 +612,13 @@ func stamp(t *rapid.T, s *Scenario, cfg Config) {
 		left[i] = len(c.flow)
 	}
 	active := map[int]bool{}
+	s.Slow = cfg.LongGaps && percent(t, "pace", cfg.SlowPercent)
 	for gi, p := range s.Packets {
 		if gi > 0 {
 			var d int64
 			switch k := rapid.IntRange(0, 99).Draw(t, "gap class"); {
+			case s.Slow && k >= 45:
+				d = int64(rapid.IntRange(60000000, 235000000).Draw(t, "gap us"))
 			case k < 15:
 				d = 1
 			case k < 50:
@@ -745,7 +771,129 @@ func cut(t *rapid.T, s *Scenario, cfg Config) {
 	}
 	pos = append(pos, n)
 	sort.Ints(pos)
-	ncap := len(pos) - 1
+	groups := make([][]*Packet, 0, len(pos)-1)
+	for ci := 0; ci+1 < len(pos); ci++ {
+		groups = append(groups, s.Packets[pos[ci]:pos[ci+1]])
+	}
+	finishCaptures(t, s, groups)
+}
+
+// layoutSensors assigns the packets to capture files non-contiguously, the way
+// several sensors (or several capture processes on asymmetric routes) see one
+// network: the time ranges of the files overlap, every packet is in exactly one
+// file, every file is sorted by time. Optionally the sequence is first cut
+// once in time, and each part is seen by 1-3 sensors.
+func layoutSensors(t *rapid.T, s *Scenario, cfg Config) {
+	n := len(s.Packets)
+	maxFiles := max(2, cfg.MaxCaptures)
+	bounds := []int{0, n}
+	if n >= 4 && maxFiles >= 3 && rapid.Bool().Draw(t, "time cut") {
+		bounds = []int{0, rapid.IntRange(1, n-1).Draw(t, "time cut position"), n}
+	}
+	var groups [][]*Packet
+	left := maxFiles
+	for part := 0; part+1 < len(bounds); part++ {
+		pk := s.Packets[bounds[part]:bounds[part+1]]
+		partsAfter := len(bounds) - 2 - part
+		most := min(3, left-partsAfter)
+		sensors := 2
+		if len(bounds) == 3 {
+			// one of the two parts may be seen by a single sensor
+			sensors = rapid.IntRange(1, most).Draw(t, "sensors")
+			if part == 1 && len(groups) == 1 && sensors == 1 {
+				sensors = 2
+			}
+		} else if most > 2 {
+			sensors = rapid.IntRange(2, most).Draw(t, "sensors")
+		}
+		left -= sensors
+		files := make([][]*Packet, sensors)
+		mode := rapid.IntRange(0, 3).Draw(t, "sensor assignment")
+		s.Layout = append(s.Layout, []string{"per-flow", "per-direction", "runs", "runs"}[mode])
+		cur, run := 0, 0
+		offs := rapid.IntRange(0, sensors-1).Draw(t, "sensor offset")
+		for _, p := range pk {
+			k := 0
+			switch mode {
+			case 0: // every conversation is seen by one sensor
+				k = (p.Conv + offs) % sensors
+			case 1: // asymmetric routing: the two directions of a conversation pass different sensors
+				k = (p.Conv + p.Dir + offs) % sensors
+			default: // load balancing: runs of packets alternate between the sensors
+				if run == 0 {
+					cur = rapid.IntRange(0, sensors-1).Draw(t, "sensor")
+					run = rapid.IntRange(1, 12).Draw(t, "sensor run")
+				}
+				run--
+				k = cur
+			}
+			files[k] = append(files[k], p)
+		}
+		for _, f := range files {
+			if len(f) > 0 {
+				groups = append(groups, f)
+			}
+		}
+	}
+	if cfg.AvoidCutAfterSecondFin {
+		// keep the packets following the second FIN of a connection in the file of that FIN
+		groups = keepTailsTogether(s, groups)
+	}
+	sort.SliceStable(groups, func(i, j int) bool { return groups[i][0].TimeUS < groups[j][0].TimeUS })
+	finishCaptures(t, s, groups)
+	for i, a := range s.Captures {
+		for _, b := range s.Captures[i+1:] {
+			if b.Packets[0].TimeUS < a.Packets[len(a.Packets)-1].TimeUS {
+				s.Overlapping = true
+			}
+		}
+	}
+}
+
+func keepTailsTogether(s *Scenario, groups [][]*Packet) [][]*Packet {
+	file := map[*Packet]int{}
+	for gi, g := range groups {
+		for _, p := range g {
+			file[p] = gi
+		}
+	}
+	moved := false
+	for _, c := range s.Conversations {
+		fins, home := 0, -1
+		for _, p := range c.flow {
+			if home >= 0 && file[p] != home {
+				file[p] = home
+				moved = true
+			}
+			if (p.FIN || p.RST) && home < 0 {
+				if fins++; fins == 2 {
+					home = file[p]
+				}
+			}
+		}
+	}
+	if !moved {
+		return groups
+	}
+	s.SteeredCuts++
+	out := make([][]*Packet, len(groups))
+	for _, p := range s.Packets {
+		out[file[p]] = append(out[file[p]], p)
+	}
+	k := 0
+	for _, g := range out {
+		if len(g) > 0 {
+			out[k] = g
+			k++
+		}
+	}
+	return out[:k]
+}
+
+// finishCaptures turns groups of packets (each sorted by time, ordered by their
+// first packet) into capture files: link type, format, padding, file name.
+func finishCaptures(t *rapid.T, s *Scenario, groups [][]*Packet) {
+	ncap := len(groups)
 	order := make([]int, ncap)
 	for i := range order {
 		order[i] = i
@@ -754,7 +902,7 @@ func cut(t *rapid.T, s *Scenario, cfg Config) {
 		order = rapid.Permutation(order).Draw(t, "name order")
 	}
 	for ci := 0; ci < ncap; ci++ {
-		cp := &Capture{Packets: s.Packets[pos[ci]:pos[ci+1]]}
+		cp := &Capture{Packets: groups[ci]}
 		all4, all6 := true, true
 		for i, p := range cp.Packets {
 			p.Capture, p.Index = ci, i
